@@ -1,17 +1,196 @@
-(* C16 — stabilised arithmetic.  Only statements, each closed by [exact]; non-vacuity Examples. *)
-From Coq Require Import List Arith Lia PeanoNat ZArith.
-From TV Require Import Num.Ops Num.InstDy Lin.Tab TT.Chain Model.ActOne Model.Stab Proofs.StabP.
+(* C16 — stabilised arithmetic.  Only statements, each closed by [exact]; non-vacuity Examples.
+   Model: Model/Stab.v.  [ilog2] is the oracle int(floor(log2 v)), [thr] core_stab's threshold (default 0.),
+   [orth_l]/[orth_r] one call of orthogonalize_left/right, [root p d] = 2**(p/d).
+   The exponent returned by norm is printed by the model as the numerator h of the half-integer h/2. *)
+From Coq Require Import List Arith Lia PeanoNat ZArith Reals.
+From TV Require Import Num.Ops Num.InstDy Lin.Tab TT.Chain Model.ActOne Model.Stab
+  Proofs.StabP Proofs.StabOrthP Proofs.StabRP.
 Import ListNotations.
 
-(* [stab_laws K] (Proofs/StabP.v): K is a commutative ring with pow2 (a+b) = pow2 a * pow2 b, pow2 0 = 1,
-   (x / pow2 p) * pow2 p = x.  The exact dyadics satisfy it: *)
+(* ------------------------------------------------------------------------------------------------
+   Carriers.  [stab_laws K] (Proofs/StabP.v): K is a commutative ring with pow2 (a+b) = pow2 a * pow2 b,
+   pow2 0 = 1, (x / pow2 p) * pow2 p = x.  The exact dyadics and the reals satisfy it.
+   ------------------------------------------------------------------------------------------------ *)
 Example C16_laws_dyadic : stab_laws ODy.
 Proof. exact (conj ODy_rng (conj Dy_pow2_add (conj Dy_pow2_0 Dy_div_pow2))). Qed.
+Example C16_laws_real : stab_laws OR.
+Proof. exact OR_laws. Qed.
+(* the contract of floor(log2 .) is met by an actual function on the reals *)
+Example C16_ilog2_exists : ilog2_ok 1 ilog2R.
+Proof. exact ilog2R_ok. Qed.
 
-(* mul_scalar(use_stab=True) returns (v, p) with 2^p * v = the plain scalar product, for every d, every
-   rank profile, every threshold and EVERY log2 oracle (exactness does not depend on floor(log2)) *)
+(* ------------------------------------------------------------------------------------------------
+   core_stab
+   ------------------------------------------------------------------------------------------------ *)
+(* exactness on every carrier, every oracle: G * 2^p0 = Q * 2^p entrywise *)
+Theorem C16_core_stab_exact : forall T (K : ops T) (ilog2 : T -> Z) (thr : T), stab_laws K ->
+  forall (G : core T) p0 a i b, wfdat G -> a < cr1 G -> i < cn G -> b < cr2 G ->
+  omul K (cget K (fst (core_stab K ilog2 thr G p0)) a i b) (opow2 K (snd (core_stab K ilog2 thr G p0)))
+  = omul K (cget K G a i b) (opow2 K p0).
+Proof. exact (@P_core_stab_exact). Qed.
+(* full specification at R: G = 2^(p-p0) Q exactly; below the threshold the core is returned unchanged with p0;
+   above it max|Q| lies in [lo, 2) and p = p0 + ilog2(max|G|)   (lo = 1 for the exact contract of floor(log2)) *)
+Theorem C16_core_stab_spec : forall (ilog2 : R -> Z) (thr lo : R) (G : core R) (p0 : Z),
+  ilog2_ok lo ilog2 -> (0 <= thr)%R -> wfdat G ->
+  let Q := fst (core_stab OR ilog2 thr G p0) in let p := snd (core_stab OR ilog2 thr G p0) in
+  (forall a i b, a < cr1 G -> i < cn G -> b < cr2 G ->
+     (cget OR G a i b * powerRZ 2 p0 = cget OR Q a i b * powerRZ 2 p)%R) /\
+  ((vmax OR (centries G) <= thr)%R -> Q = G /\ p = p0) /\
+  ((thr < vmax OR (centries G))%R ->
+     (lo <= vmax OR (centries Q) < 2)%R /\ p = (p0 + ilog2 (vmax OR (centries G)))%Z).
+Proof. exact core_stab_spec. Qed.
+
+(* ------------------------------------------------------------------------------------------------
+   mul_scalar(use_stab=True)
+   ------------------------------------------------------------------------------------------------ *)
+(* (v, p) with 2^p * v = the plain scalar product (Model/ActOne.mul_scalar, the object of C01), for every d,
+   every rank profile, every threshold and EVERY log2 oracle *)
 Theorem C16_mul_scalar_stab : forall T (K : ops T) (ilog2 : T -> Z) (thr : T), stab_laws K ->
   forall Y1 Y2 : list (core T),
   omul K (opow2 K (snd (mul_scalar_stab K ilog2 thr Y1 Y2))) (fst (mul_scalar_stab K ilog2 thr Y1 Y2))
   = mul_scalar K Y1 Y2.
 Proof. exact (@P_mul_scalar_stab_exact). Qed.
+(* the invariant along the chain: after any number k of cores the state (v_k, p_k) denotes the true partial product *)
+Theorem C16_mul_scalar_stab_invariant : forall T (K : ops T) (ilog2 : T -> Z) (thr : T), stab_laws K ->
+  forall (Y1 Y2 : list (core T)) (k : nat),
+  let vp := run2s K ilog2 thr [o1 K] 0%Z (firstn k Y1) (firstn k Y2) in
+  vscale K (opow2 K (snd vp)) (fst vp) = run2 K [o1 K] (firstn k Y1) (firstn k Y2).
+Proof. exact (@P_mul_scalar_stab_prefix). Qed.
+(* the mantissa: |v| <= thr (v = 0 for the default thr = 0) or lo <= |v| < 2 *)
+Theorem C16_mul_scalar_stab_mantissa : forall (ilog2 : R -> Z) (thr lo : R) (Y1 Y2 : list (core R)) d1 d2,
+  ilog2_ok lo ilog2 -> (0 <= thr)%R ->
+  Y1 <> [] -> length Y1 = length Y2 -> cr2 (last Y1 d1) = 1 -> cr2 (last Y2 d2) = 1 ->
+  let v := fst (mul_scalar_stab OR ilog2 thr Y1 Y2) in (Rabs v <= thr)%R \/ (lo <= Rabs v < 2)%R.
+Proof. exact (fun il thr lo Y1 Y2 d1 d2 => mul_scalar_stab_mantissa il thr lo Y1 Y2 d1 d2). Qed.
+
+(* stabilised = plain when no scaling is needed (every running vector below the threshold or with floor(log2) = 0) *)
+Theorem C16_stab_eq_plain : forall T (K : ops T) (ilog2 : T -> Z) (thr : T), stab_laws K ->
+  forall Y1 Y2 : list (core T), noscale K ilog2 thr [o1 K] Y1 Y2 ->
+  mul_scalar_stab K ilog2 thr Y1 Y2 = (mul_scalar K Y1 Y2, 0%Z).
+Proof. exact (@P_stab_eq_plain_noscale). Qed.
+(* and whenever the returned exponent is 0 the mantissa IS the plain result *)
+Theorem C16_stab_eq_plain_p0 : forall T (K : ops T) (ilog2 : T -> Z) (thr : T), stab_laws K ->
+  forall Y1 Y2 : list (core T), snd (mul_scalar_stab K ilog2 thr Y1 Y2) = 0%Z ->
+  fst (mul_scalar_stab K ilog2 thr Y1 Y2) = mul_scalar K Y1 Y2.
+Proof. exact (@P_stab_eq_plain_p0). Qed.
+
+(* rescaling one core by 2^s shifts the exponent by s and nothing else (mantissa identical).
+   Default threshold 0, exact contract, and the partial product at that core is not the zero vector
+   (for a zero product both results are (0, p) with the exponent frozen where the product vanished). *)
+Theorem C16_stab_shift : forall (ilog2 : R -> Z), ilog2_ok 1 ilog2 ->
+  forall (A A2 : list (core R)) G1 G2 B B2 (s : Z), length A = length A2 ->
+  (0 < vmax OR (vstep2 OR (fst (run2s OR ilog2 0%R [1%R] 0%Z A A2)) G1 G2))%R ->
+  mul_scalar_stab OR ilog2 0%R (A ++ core_scale OR (powerRZ 2 s) G1 :: B) (A2 ++ G2 :: B2) =
+  (fst (mul_scalar_stab OR ilog2 0%R (A ++ G1 :: B) (A2 ++ G2 :: B2)),
+   (snd (mul_scalar_stab OR ilog2 0%R (A ++ G1 :: B) (A2 ++ G2 :: B2)) + s)%Z).
+Proof. exact stab_shift. Qed.
+Theorem C16_stab_shift_norm : forall (ilog2 : R -> Z), ilog2_ok 1 ilog2 ->
+  forall (A : list (core R)) G B (s : Z),
+  (0 < vmax OR (vstep2 OR (fst (run2s OR ilog2 0%R [1%R] 0%Z A A)) G G))%R ->
+  norm_stab OR ilog2 0%R (A ++ core_scale OR (powerRZ 2 s) G :: B) =
+  (fst (norm_stab OR ilog2 0%R (A ++ G :: B)), (snd (norm_stab OR ilog2 0%R (A ++ G :: B)) + 2 * s)%Z).
+Proof. exact stab_shift_norm. Qed.
+
+(* ------------------------------------------------------------------------------------------------
+   norm(use_stab=True) = (z, h/2):  z >= 0,  z * 2^(h/2) = ||Y|| = sqrt <Y,Y>,  z^2 * 2^h = <Y,Y>
+   ------------------------------------------------------------------------------------------------ *)
+Theorem C16_norm_stab : forall (ilog2 : R -> Z) (thr : R) (Y : list (core R)),
+  let z := fst (norm_stab OR ilog2 thr Y) in let h := snd (norm_stab OR ilog2 thr Y) in
+  (0 <= z)%R /\ (z * Rpower 2 (IZR h / 2) = sqrt (mul_scalar OR Y Y))%R /\
+  ((0 <= mul_scalar OR Y Y)%R -> (z * z * powerRZ 2 h = mul_scalar OR Y Y)%R).
+Proof. exact norm_stab_spec. Qed.
+
+(* ------------------------------------------------------------------------------------------------
+   accuracy(Y1, Y2): every branch.  h1, h2 = twice the exponents returned by norm, so
+   p1 - p2 > 500  <->  h1 - h2 > 1000.   ||.|| = sqrt <.,.>  (nrm2)
+   ------------------------------------------------------------------------------------------------ *)
+Theorem C16_accuracy_stab : forall (ilog2 : R -> Z) (thr : R) (isinf : R -> bool),
+  (forall x, isinf x = false) -> forall (big tiny : R) (Y1 Y2 : list (core R)), (0 < tiny)%R ->
+  let h1 := snd (norm_stab OR ilog2 thr (sub OR Y1 Y2)) in
+  let h2 := snd (norm_stab OR ilog2 thr Y2) in
+  let z2 := fst (norm_stab OR ilog2 thr Y2) in
+  let r := accuracy OR ilog2 isinf thr big tiny Y1 Y2 in
+  ((h1 - h2 > 1000)%Z -> r = big) /\
+  ((h1 - h2 < -1000)%Z -> r = 0%R) /\
+  ((-1000 <= h1 - h2 <= 1000)%Z -> (Rabs z2 < tiny)%R -> r = (-1)%R) /\
+  ((-1000 <= h1 - h2 <= 1000)%Z -> (tiny <= Rabs z2)%R -> r = (nrm2 (sub OR Y1 Y2) / nrm2 Y2)%R).
+Proof. exact accuracy_spec. Qed.
+
+(* ------------------------------------------------------------------------------------------------
+   orthogonalize(Y, k, use_stab=True) = (Z, p):  2^p * Z = Y entrywise, for every oracle pair meeting
+   [orth_contract] (each call keeps the product of the two cores it touches) and every log2 oracle
+   ------------------------------------------------------------------------------------------------ *)
+Theorem C16_orth_stab : forall T (K : ops T) (ilog2 : T -> Z) (thr : T)
+  (orth_l orth_r : nat -> core T -> core T -> core T * core T), stab_laws K -> orth_contract K orth_l orth_r ->
+  forall Y k Zs p idx, orthogonalize_stab K ilog2 thr orth_l orth_r Y k = Ok (Zs, p) -> wf 1 Y idx ->
+  wf 1 Zs idx /\ omul K (opow2 K p) (get K Zs idx) = get K Y idx.
+Proof. exact (@P_orthogonalize_stab_exact). Qed.
+Theorem C16_orth_stab_total : forall T (K : ops T) (ilog2 : T -> Z) (thr : T)
+  (orth_l orth_r : nat -> core T -> core T -> core T * core T) Y k,
+  (k <= length Y - 1 -> exists Zs p, orthogonalize_stab K ilog2 thr orth_l orth_r Y k = Ok (Zs, p)) /\
+  (length Y - 1 < k -> orthogonalize_stab K ilog2 thr orth_l orth_r Y k = Err ValueError).
+Proof.
+  exact (fun T K il thr ol or Y k => conj (orthogonalize_stab_ok K il thr ol or Y k)
+                                         (orthogonalize_stab_rejects K il thr ol or Y k)).
+Qed.
+
+(* ------------------------------------------------------------------------------------------------
+   truncate(use_stab=True): the final factor 2^(p/d) on each of the d cores restores 2^p.
+   [body] is the rounding sweep applied to the stabilised tensor Z (the object of C02); the result W
+   denotes 2^p * body(Z), so the entrywise error against Y is exactly 2^p times the error of the sweep on Z:
+   relative accuracy is scale invariant.
+   ------------------------------------------------------------------------------------------------ *)
+Theorem C16_truncate_stab : forall T (K : ops T) (ilog2 : T -> Z) (thr : T)
+  (orth_l orth_r : nat -> core T -> core T -> core T * core T),
+  stab_laws K -> orth_contract K orth_l orth_r ->
+  forall (root : Z -> nat -> T) body Y W idx,
+  (forall p, opow K (root p (length Y)) (length Y) = opow2 K p) ->
+  (forall Zs, length (body Zs) = length Zs) -> (forall Zs, wf 1 Zs idx -> wf 1 (body Zs) idx) ->
+  truncate_stab K ilog2 thr orth_l orth_r root body Y = Ok W -> wf 1 Y idx ->
+  exists Zs p, orthogonalize_stab K ilog2 thr orth_l orth_r Y (length Y - 1) = Ok (Zs, p) /\
+    omul K (opow2 K p) (get K Zs idx) = get K Y idx /\
+    get K W idx = omul K (opow2 K p) (get K (body Zs) idx) /\
+    osub K (get K Y idx) (get K W idx) = omul K (opow2 K p) (osub K (get K Zs idx) (get K (body Zs) idx)).
+Proof. exact (@P_truncate_stab_exact). Qed.
+(* scaling every one of the d cores by c multiplies every entry by c^d *)
+Theorem C16_rescale_all : forall T (K : ops T), rng K -> forall c (Y : list (core T)) idx, wf 1 Y idx ->
+  get K (rescale_all K c Y) idx = omul K (opow K c (length Y)) (get K Y idx).
+Proof. exact (@get_rescale_all). Qed.
+(* at R the factor 2^(p/d) of the code meets the root contract *)
+Example C16_root_real : forall p d, 0 < d -> opow OR (rootR p d) d = powerRZ 2 p.
+Proof. exact rootR_spec. Qed.
+(* an oracle pair meeting the orthogonalisation contract exists on every carrier *)
+Example C16_orth_contract_nonvacuous : forall T (K : ops T),
+  orth_contract K (fun _ G1 G2 => (G1, restore K G2)) (fun _ G1 G2 => (restore K G1, G2)).
+Proof. exact (@restore_contract). Qed.
+
+(* ------------------------------------------------------------------------------------------------
+   Non-vacuity on concrete tensors (exact dyadics, unbounded exponents).
+   Y = three rank-1 cores with entries (3,4)*2^600, (1,1)*2^-2000, (5,12)*2^900:
+   <Y,Y> = 25 * 2 * 169 * 2^-1000 = 8450 * 2^-1000 = (4225/4096) * 2^-987   -> (v, p) = (4225 * 2^-12, -987);
+   ||Y|| = (65/64) * 2^(-987/2): mantissa 65 * 2^-6, half-exponent numerator -987.
+   ------------------------------------------------------------------------------------------------ *)
+Definition exY : list (core Dy) :=
+  [mk_core 1 2 1 [[[mkDy 3 600]; [mkDy 4 600]]];
+   mk_core 1 2 1 [[[mkDy 1 (-2000)]; [mkDy 1 (-2000)]]];
+   mk_core 1 2 1 [[[mkDy 5 900]; [mkDy 12 900]]]].
+Example C16_example_mul_scalar :
+  mul_scalar_stab ODy Dy_ilog2 Dy_0 exY exY = (mkDy 4225 (-12), (-987)%Z) /\
+  Dy_mul (Dy_pow2 (-987)) (mkDy 4225 (-12)) = mul_scalar ODy exY exY /\
+  norm_stab ODy Dy_ilog2 Dy_0 exY = (mkDy 65 (-6), (-987)%Z).
+Proof. vm_compute. repeat split; reflexivity. Qed.
+(* with the threshold 1e-100 of the pinned tree the first partial product 25 * 2^-4400... is left unscaled: *)
+Example C16_example_threshold :
+  fst (stab_entries ODy Dy_ilog2 (mkDy 1 (-332)) [mkDy 25 (-340)] 7) = [mkDy 25 (-340)] /\
+  snd (stab_entries ODy Dy_ilog2 (mkDy 1 (-332)) [mkDy 25 (-340)] 7) = 7%Z /\
+  stab_entries ODy Dy_ilog2 Dy_0 [mkDy 25 (-340)] 7 = ([mkDy 25 (-4)], (-329)%Z).
+Proof. vm_compute. repeat split; reflexivity. Qed.
+(* orthogonalize(use_stab) with the trivial oracle pair: Z carries mantissas, p the scale *)
+Example C16_example_orth :
+  exists Zs p, orthogonalize_stab ODy Dy_ilog2 Dy_0 (fun _ G1 G2 => (G1, restore ODy G2))
+                 (fun _ G1 G2 => (restore ODy G1, G2)) exY 2 = Ok (Zs, p) /\ p = (-1097)%Z /\
+    Dy_mul (Dy_pow2 p) (get ODy Zs [1; 0; 1]) = get ODy exY [1; 0; 1] /\ wf 1 exY [1; 0; 1].
+Proof.
+  eexists. eexists. split; [vm_compute; reflexivity|]. split; [reflexivity|]. split; [vm_compute; reflexivity|].
+  cbn. repeat split; lia.
+Qed.
